@@ -122,6 +122,49 @@ def _exact_constant(t, X):
     return v is not None and ev._exact_in(v, X)
 
 
+def parameter_cases(res, depth=0):
+    """[(description, {symbol: value}, value)]: the value split on its conditionals whose condition compares one leaf with a
+    constant for (in)equality.  In the equal case the leaf is replaced by the constant in both sides of the comparison."""
+    found = []
+
+    def find(x):
+        if found:
+            return
+        if isinstance(x, ev.Obj):
+            for v in x.f.values():
+                find(v)
+        elif isinstance(x, ev.Arr):
+            for v in x.items:
+                find(v)
+        elif isinstance(x, tuple) and x:
+            if x[0] == "g" and isinstance(x[1], tuple) and x[1] and x[1][0] == "cmp" and x[1][1] in ("==", "!="):
+                l, r = x[1][2], x[1][3]
+                while isinstance(l, tuple) and l and l[0] == "cast":
+                    l = l[2]
+                while isinstance(r, tuple) and r and r[0] == "cast":
+                    r = r[2]
+                if isinstance(l, tuple) and l and l[0] == "leaf" and (isinstance(r, int) or (isinstance(r, tuple) and r and r[0] == "c")):
+                    found.append((x[1], l, r))
+                    return
+            for v in x:
+                if isinstance(v, (tuple, ev.Obj, ev.Arr)):
+                    find(v)
+    find(res)
+    if not found or depth > 4:
+        return [("", {}, res)]
+    cond, leaf, const = found[0]
+    cval = sympy.Integer(const) if isinstance(const, int) else sympy.Rational(const[1].numerator, const[1].denominator)
+    eq_truth = cond[1] == "=="
+    out = []
+    for d2, s2, r2 in parameter_cases(ev.assume(res, cond, eq_truth), depth + 1):      # leaf == const
+        sub = dict(s2)
+        sub[nf.sym(leaf[1], True)] = cval
+        out.append((("%s == %s" % (leaf[1], cval)) + (" and " + d2 if d2 else ""), sub, r2))
+    for d2, s2, r2 in parameter_cases(ev.assume(res, cond, not eq_truth), depth + 1):  # leaf != const
+        out.append((("%s != %s" % (leaf[1], cval)) + (" and " + d2 if d2 else ""), s2, r2))
+    return out
+
+
 def check_linear_map(chk, rule, F, mname, f, a, b, inverse, conv_fields, argname="x"):
     """f: X -> a X + b tr(X) I  (or its inverse) slot-wise; a, b sympy in the model's member symbols."""
     pt = strip_cvref(F.T(f["params"][0]["t"]))
@@ -140,14 +183,19 @@ def check_linear_map(chk, rule, F, mname, f, a, b, inverse, conv_fields, argname
         conv = nf.Conv(positive=True)
         E0 = ev.Evaluator(F)
         X, _ = shapes.to_sympy(conv, F, pt, E0.symbolic(pt, argname))
-        got, _ = shapes.to_sympy(conv, F, F.T(f["ret"]), res)
-        want = EL.linear_isotropic_inverse(a, b, X) if inverse else EL.linear_isotropic(a, b, X)
-        for i in range(3):
-            for j in range(3):
-                if not nf.equal(got[i, j], want[i, j]):
-                    w = nf.witness(got[i, j], want[i, j])
-                    chk.violated(rule, inst, "component %s%s is %s, expected %s%s" % ("xyz"[i], "xyz"[j], sympy.simplify(got[i, j]), sympy.simplify(want[i, j]), "; e.g. at %s" % w if w else ""), loc, witness=w)
-                    return None
+        want0 = EL.linear_isotropic_inverse(a, b, X) if inverse else EL.linear_isotropic(a, b, X)
+        got = None
+        # special-case branches on a model parameter (`if (bulk_viscosity == 0) ...`) are decided case by case
+        for desc, subst, case_res in parameter_cases(res):
+            got, _ = shapes.to_sympy(conv, F, F.T(f["ret"]), case_res)
+            want = want0.subs(subst) if subst else want0
+            got = got.subs(subst) if subst else got
+            for i in range(3):
+                for j in range(3):
+                    if not nf.equal(got[i, j], want[i, j]):
+                        w = nf.witness(got[i, j], want[i, j])
+                        chk.violated(rule, inst, "%scomponent %s%s is %s, expected %s%s" % (("when %s: " % desc) if desc else "", "xyz"[i], "xyz"[j], sympy.simplify(got[i, j]), sympy.simplify(want[i, j]), "; e.g. at %s" % w if w else ""), loc, witness=w)
+                        return None
         chk.holds(rule, inst, "slot-wise equal to %s" % ("the inverse of a X + b tr(X) I" if inverse else "a X + b tr(X) I"), loc)
         return got
     except ev.Inconclusive as x:
